@@ -344,6 +344,53 @@ def check_dot_case(case, ev=None, scratch=None):
             scratch.clean()
 
 
+PREFIX_GROUPS = [(["/ab/a/b", "/ab/a/ab"], "/ab/a"), (["/a/b"], "/a"), (["/x/y/z"], "/x"), (["/a"], "/a/b"), (["/x/y"], "/x/y/z/w")]
+
+
+def check_prefix_case(case, ev=None, scratch=None):
+    """Some paths are committed, then one that is a prefix (or an extension) of them: the store may refuse the second commit
+    (a location cannot be a file and a directory), but what was committed before must keep resolving to the same key."""
+    from collections import OrderedDict
+
+    own = scratch is None
+    scratch = scratch or common.Scratch("vf-c08")
+    try:
+        env = StoreEnv(case["kind"], scratch)
+        first, second = case["first"], case["second"]
+        k1, k2 = KEYS[0], KEYS[1]
+        env.store.store_blob(k1, "one", None)
+        env.store.store_blob(k2, "two", None)
+        env.store.sync_paths(OrderedDict((mkpath(q), k1) for q in first))
+        outcome = "committed"
+        try:
+            env.store.sync_paths(OrderedDict([(mkpath(second), k2)]))
+        except BaseException:  # noqa
+            outcome = "refused"
+        for reopen in (False, True):
+            if reopen:
+                env.open()
+            for q in first:
+                try:
+                    got = dict(env.store.fetch_paths([mkpath(q)])).get(q)
+                except BaseException as e:  # noqa
+                    raise Violation(f"[{case['kind']}] after the commit of {second!r} was {outcome}, the earlier path {q} no longer resolves ({type(e).__name__}: {str(e)[:150]})"
+                                    f"{' after reopening the store' if reopen else ''}", case)
+                if got != k1:
+                    raise Violation(f"[{case['kind']}] after the commit of {second!r} was {outcome}, the earlier path {q} resolves to {str(got)[:6]} instead of its key", case)
+            if outcome == "committed":
+                try:
+                    got = dict(env.store.fetch_paths([mkpath(second)])).get(second)
+                except BaseException as e:  # noqa
+                    raise Violation(f"[{case['kind']}] {second!r} was accepted for commit next to {first} but does not resolve: {type(e).__name__}", case)
+                if got != k2:
+                    raise Violation(f"[{case['kind']}] {second!r} was committed next to {first} but resolves to {str(got)[:6]}", case)
+        if ev is not None:
+            ev.case(case, True, features=["prefix-related-commit:" + case["kind"], "prefix:" + outcome])
+    finally:
+        if own:
+            scratch.clean()
+
+
 def shard(idx, n, tier, seed, count):
     ev = Ev()
     scratch = common.Scratch("vf-c08")
@@ -351,6 +398,9 @@ def shard(idx, n, tier, seed, count):
         dots = [{"kind": k, "path": p, "dot": True} for k in KINDS for p in dot_paths()]
         for i in range(idx, len(dots), n):
             check_dot_case(dots[i], ev, scratch)
+        pref = [{"kind": k, "first": f, "second": s_, "prefix": True} for k in KINDS for (f, s_) in PREFIX_GROUPS]
+        for i in range(idx, len(pref), n):
+            check_prefix_case(pref[i], ev, scratch)
         v = common.hyp_drive(case_strategy(), lambda c: check_case(c, ev, scratch), seed * 1000 + 800 + idx, count, ev)
     finally:
         scratch.clean()
@@ -363,6 +413,8 @@ def run(tier, seed, scale=1.0):
 
 
 def replay(case):
+    if case.get("prefix"):
+        return check_prefix_case(case)
     if case.get("dot"):
         check_dot_case(case)
     else:
